@@ -35,6 +35,7 @@ static const bool AVOID_SETLOCATORSBYCOLIDX = false; // D2: Db::setLocatorsByCol
 static const bool AVOID_OWN_TYPE_RELOCATE   = false; // setLocator*(col already of that type): hole / neighbour loses role
 static const bool AVOID_SETNAMEBYCOLIDX_DUP = false; // setNameByColIdx does not de-duplicate
 static const bool AVOID_ADDSAMPLES_TEST_SEL = false;
+static const bool AVOID_ADDCOLUMNS_USESEL_SEL = false; // addColumns(tab, …, ELoc::SEL, …, useSel=true)
 static const bool AVOID_UNKNOWN_WITH_CLEAN  = false; // setLocator*(…, ELoc::UNKNOWN, …, cleanSameLocator=true): _p[-1] // addSamples(default TEST) on a Db with a selection
 
 static const int T_X = 0, T_Z = 1, T_SEL = 10;
@@ -278,6 +279,7 @@ static bool gen_addColumns(Rng& r, const Shadow& s, Op& op)
     if ((useSel ? s.nactive() : s.nech) != n || n == 0) return false;
     if (a.type >= 0 && a.idx > (int)s.loc[a.type].size()) return false;
     if (a.type >= 0 && isUniq(a.type) && nvar != 1) return false;
+    if (AVOID_ADDCOLUMNS_USESEL_SEL && a.type == T_SEL && useSel) return false;
     if (variant == 2 && (s.uidByName(radix) >= 0 || s.namesAmbiguous())) return false;
     return true;
   };
@@ -304,6 +306,8 @@ static bool gen_addColumns(Rng& r, const Shadow& s, Op& op)
     else
       db->setColumn(VectorDouble(tab), radix, EL(a.type), a.idx, useSel);
     modelAdd(s, e, nvar, radix, vals, a.type, a.idx);
+    // the new column becomes THE selection before its values are written through "the" selection
+    if (a.type == T_SEL && useSel) e.cls = "addColumns-useSel-with-SEL-role";
   };
   return true;
 }
@@ -1251,7 +1255,8 @@ static RunResult runHistory(const Init& in, std::vector<Op>& ops, Ctx* c, const 
     size_t nb = res.fails.size();
     for (auto& f : tf)
     {
-      std::string key = "C07:" + opkey + ":" + f.rule;
+      std::string rule = (op.name == "setLocatorsByColIdx" && f.rule == "role-mismatch") ? "wrong-column" : f.rule;
+      std::string key  = "C07:" + opkey + ":" + rule;
       if (isLocRule(f.rule)) { if (locKey.empty()) locKey = key; key = locKey; }
       res.fails.push_back({(int)i, key, f.oracle, f.rule + ": " + f.detail});
     }
